@@ -1,5 +1,6 @@
 #!/usr/bin/env python3
-"""Writes coq/ND/Proofs/C09_faa.v and coq/ND/Props/C09.v."""
+"""Writes coq/ND/Proofs/C09_faa.v and coq/ND/Props/C09.v.
+NOTE: development-time generator, not run by ./check; Props/C09.v has since been extended by hand (C09_agree_* theorems) -- do not re-run without merging."""
 import re
 src = open('/verif/tools/coqgen/gen_c01.py').read()
 ns = {}
